@@ -81,3 +81,36 @@ Example C06_reject_example :
      K 1 false; K 1 false; K 1 false]                            (* caller 1: lock, full, raise *)
   in nth_error (kp s) 1 = Some (KDone Rejected) /\ ledger s = [0%nat].
 Proof. vm_compute. split; reflexivity. Qed.
+(* AsyncServer and servers over process servlets run for real; the exact history of their ledger operations is checked
+   against Model/BacklogSpec.v. A history the specification accepts has at most [cap] requests in flight after every
+   operation, for every capacity and history length, and the counters add up. *)
+From MpV Require Model.BacklogSpec Proof.BacklogSpecProof.
+Theorem C06_accepted_history_bounded : forall (cap : nat) (evs : list BacklogSpec.ev) (sf : BacklogSpec.st),
+  BacklogSpec.accept cap BacklogSpec.init 0 evs = inl sf ->
+  forall k, exists sk, BacklogSpec.accept cap BacklogSpec.init 0 (firstn k evs) = inl sk /\
+                       BacklogSpec.backlog sk <= cap /\
+                       BacklogSpec.accepted sk = BacklogSpec.released sk + BacklogSpec.backlog sk.
+Proof. exact BacklogSpecProof.accepted_history_bounded. Qed.
+Print Assumptions C06_accepted_history_bounded.
+(* a history that ends idle has given every slot back *)
+Theorem C06_idle_means_all_slots_back : forall (cap : nat) (evs : list BacklogSpec.ev) (sf : BacklogSpec.st),
+  BacklogSpec.accept cap BacklogSpec.init 0 evs = inl sf -> BacklogSpec.backlog sf = 0 ->
+  BacklogSpec.accepted sf = BacklogSpec.released sf.
+Proof. exact BacklogSpecProof.idle_means_all_slots_back. Qed.
+Print Assumptions C06_idle_means_all_slots_back.
+(* the specification refuses only what is really wrong *)
+Theorem C06_refusal_is_real : forall (cap : nat) (s : BacklogSpec.st) (e : BacklogSpec.ev) (k : BacklogSpec.refusal),
+  BacklogSpec.step cap s e = inr k ->
+  match k with
+  | BacklogSpec.Overflow => e = BacklogSpec.Acc /\ cap <= BacklogSpec.backlog s
+  | BacklogSpec.Impossible => e = BacklogSpec.Rel /\ BacklogSpec.backlog s = 0
+  | BacklogSpec.Inconsistent => exists n, e = BacklogSpec.Len n /\ n <> BacklogSpec.backlog s
+  end.
+Proof. exact BacklogSpecProof.refusal_is_real. Qed.
+Print Assumptions C06_refusal_is_real.
+Example C06_spec_examples :
+  (exists s, BacklogSpec.accept 2 BacklogSpec.init 0 [BacklogSpec.Len 0; BacklogSpec.Acc; BacklogSpec.Acc; BacklogSpec.Len 2;
+                                                       BacklogSpec.Rel; BacklogSpec.Acc; BacklogSpec.Rel; BacklogSpec.Rel] = inl s
+             /\ BacklogSpec.peak s = 2 /\ BacklogSpec.backlog s = 0) /\
+  BacklogSpec.accept 2 BacklogSpec.init 0 [BacklogSpec.Acc; BacklogSpec.Acc; BacklogSpec.Acc] = inr (2, BacklogSpec.Overflow).
+Proof. split; [eexists; repeat split; vm_compute; reflexivity | vm_compute; reflexivity]. Qed.
